@@ -89,6 +89,18 @@ def items():
             Hole("formatted.push(Pair::new(value, None));", "proof { assert(value_formatter.ensures((ctx, vx_in, shape), vx_v) && lead_rel(vx_v, value) && trail_rel(value, value)); }\n                formatted.push(Pair::new(value, None));", why="proof hint for the last item"),
             Loop("while let Some(pair) = vx_it.next()", loop_inv("*old", "formatted", "by_item_formatter_modulo_trivia", extra="\n            idx == k,").replace("{FMT}", "value_formatter"), step="idx = idx + 1; proof { k = k + 1; }"),
         ]),
+        Raw("""
+pub trait HasInlineComments { fn has_inline_comments(&self) -> bool; }
+""", module="formatters::trivia_util"),
+        Fn(TU, "punctuated_inline_comments", mode="stub", note="looks for comments between the items: chooses between the two list layouts"),
+        Fn(GEN, "try_format_punctuated", sig_edits=[Hole("T: Node\n        + GetLeadingTrivia", "T: VNode\n        + GetLeadingTrivia", kind="proxy", why="proxy trait for the sealed full_moon::node::Node"),
+                                                     Hole("+ HasInlineComments\n        + std::fmt::Display,", "+ HasInlineComments,", kind="proxy", why="the Display bound is only used for a width")], contract="""
+    requires forall|i: int, s: Shape| 0 <= i < ppairs(*old).len() ==> #[trigger] value_formatter.requires((ctx, &pair_value(ppairs(*old)[i]), s)),
+    ensures ppairs(r).len() == ppairs(*old).len(), //# C02.list_same_length
+            forall|i: int| 0 <= i < ppairs(*old).len() ==> by_item_formatter_modulo_trivia(value_formatter, ctx, pair_value(#[trigger] ppairs(*old)[i]), pair_value(ppairs(r)[i])), //# C02.list_items_by_the_formatter
+""", edits=[
+            Hole("format_punctuated(ctx, old, shape, value_formatter)", "{ let vx_r = format_punctuated(ctx, old, shape, value_formatter);\n        proof { assert forall|i: int| 0 <= i < ppairs(*old).len() implies by_item_formatter_modulo_trivia(value_formatter, ctx, pair_value(#[trigger] ppairs(*old)[i]), pair_value(ppairs(vx_r)[i])) by { let x = pair_value(ppairs(*old)[i]); let o = pair_value(ppairs(vx_r)[i]); assert(by_item_formatter(value_formatter, ctx, x, o)); let s = choose|s: Shape| value_formatter.ensures((ctx, &x, s), o); assert(value_formatter.ensures((ctx, &x, s), o) && lead_rel(o, o) && trail_rel(o, o)); } }\n        vx_r }", kind="ghost-name", why="proof hint: an item that is exactly the formatter's result is one up to trivia"),
+        ]),
         Raw("pub assume_specification [TokenReference::new] (l: Vec<Token>, t: Token, tr: Vec<Token>) -> (r: TokenReference);", module="formatters::general"),
         Fn(GEN, "format_contained_punctuated_multiline", contract="""
     requires forall|i: int, s: Shape| 0 <= i < ppairs(*arguments).len() ==> #[trigger] argument_formatter.requires((ctx, &pair_value(ppairs(*arguments)[i]), s)),
